@@ -90,7 +90,7 @@ def run(ctx: Ctx):
     # 2. S->C
     sim_cfgs = [
         dc.consts(MaxId=8, MaxOps=2, Prios=[1, 5, 10], RelDelays=[0, 1], AbsTimes=[], BadKinds=[], Cmds=["Start"], MaxCmds=3, EndT=4, WarmT=2),
-        dc.consts(MaxId=6, MaxOps=2, Prios=[5], RelDelays=[0, 1, 2], AbsTimes=[], BadKinds=[], Cmds=["Start", "RunUpTo"], Bounds=[2, 3], MaxCmds=4, EndT=4, WarmT=1, EndRepOps=True),
+        dc.consts(MaxId=6, MaxOps=2, Prios=[5], RelDelays=[0, 1, 2], AbsTimes=[4], BadKinds=[], Cmds=["Start", "RunUpTo"], Bounds=[2, 3], MaxCmds=4, EndT=4, WarmT=1, EndRepOps=True),   # (events exactly at the end)
         dc.consts(MaxId=7, MaxOps=2, Prios=[5], RelDelays=[-1, 0, 2], AbsTimes=[0, 4], BadKinds=["nan_abs", "nan_rel", "str_abs", "neg_tiny", "reinit"], Cmds=["Start"], MaxCmds=3, EndT=4, WarmT=0),
         dc.consts(MaxId=9, MaxOps=2, Prios=[5, 10], RelDelays=[0, 1, 3], AbsTimes=[], BadKinds=[], Cmds=["Start"], MaxCmds=3, EndT=3, WarmT=3),
     ]
